@@ -41,7 +41,7 @@ META = {
                  "sources, observation traces (findings + value-flow facts) judged by TLC",
 }
 
-TIERS = {"quick": {"programs": 32, "chains": 3, "batch": 32}, "thorough": {"programs": 800, "chains": 8, "batch": 80}}
+TIERS = {"quick": {"programs": 32, "chains": 3, "batch": 32}, "thorough": {"programs": 600, "chains": 8, "batch": 100}}
 KINDS = set(rewrite_c06.KIND_LETTER.values())
 
 
